@@ -396,7 +396,18 @@ def w_c15b():
         return f"parse result of a diagram that declares one alias for two components depends on PYTHONHASHSEED: {sorted(outs)}"
 
 
+def w_c08a():
+    files = {"proj/__init__.py": "", "proj/a.py": "import proj.b\n", "proj/b.py": "", "proj/gen/x.py": "import proj.a\n"}
+    with Project(files) as p:
+        with_pattern = _nodes(scan(p, "proj", exclusions=("*gen*",)))
+        without = _nodes(scan(p, "proj", exclusions=()))
+    want = with_pattern | {"proj.gen", "proj.gen.x"}
+    if without != want:
+        return f"the scan without any exclusion pattern (exclusions=()) gives {sorted(without)}, expected {sorted(want)}"
+
+
 WITNESSES = {
+    "F-C08a": ("C08", w_c08a),
     "F-C02a": ("C02", w_c02a),
     "F-C02b": ("C02", w_c02b),
     "F-C03": ("C03", w_c03),
